@@ -382,7 +382,7 @@ pub fn all() -> Vec<CheckDef> {
         CheckDef { id: "C18", level: "exploration", quick_s: 40, thorough_s: 600, gen: |s, _t| gen::gen_readonly(s), run: run_history, rule: RULE_RO, assumptions: &["write-class syscalls are observed at the process's libc boundary (write/pwrite/ftruncate/rename/unlink/copy_file_range on the memory's directory); mmap is read-only in this code base"], want_probes: &["ro_opens", "ro_byte_snapshots", "abandon", "searches"] },
         CheckDef { id: "C19", level: "exploration", quick_s: 40, thorough_s: 600, gen: |s, t| gen::gen_single_file(s, if t == Tier::Quick { 20 } else { 40 }), run: run_history, rule: RULE_SF, assumptions: &["injected errors are returned at the libc boundary for calls on the memory's directory only", "reads through mmap cannot be faulted"], want_probes: &["dir_listings", "sidecar_refusals", "op_errors"] },
         CheckDef { id: "C24", level: "exploration", quick_s: 40, thorough_s: 600, gen: |s, _t| gen::gen_tickets(s, true), run: run_history, rule: RULE_TK, assumptions: &["capacity is compared with the end offset of frame payloads as reported by the public Frame fields"], want_probes: &["capacity_checks", "tickets_accepted", "rejected_calls_monitored"] },
-        CheckDef { id: "C25", level: "exploration", quick_s: 40, thorough_s: 600, gen: |s, _t| gen::gen_tickets(s, false), run: run_history, rule: RULE_TK, assumptions: &["acceptance of an authentic signed ticket cannot be exercised (no private key); forged signatures, wrong memory ids and unbound memories are"], want_probes: &["tickets_accepted", "stale_tickets_rejected", "forged_tickets_rejected", "rejected_calls_monitored"] },
+        CheckDef { id: "C25", level: "exploration", quick_s: 40, thorough_s: 600, gen: |s, _t| gen::gen_tickets(s, false), run: run_history, rule: RULE_TK, assumptions: &["the only authentic signature available offline is the vector pinned in the crate's own signature tests (memory 69601cef-..., seq 9); every other signature is forged"], want_probes: &["tickets_accepted", "stale_tickets_rejected", "forged_tickets_rejected", "rejected_calls_monitored", "authentic_signed_ticket_accepted", "authentic_ticket_for_other_memory_rejected"] },
         CheckDef { id: "C17", level: "exploration", quick_s: 40, thorough_s: 600, gen: |s, t| gen::gen_two_writers(s, if t == Tier::Quick { 20 } else { 40 }), run: run_history, rule: RULE_LOCK, assumptions: &["a second process is simulated by an independent open file description in the same process: flock conflicts between open file descriptions exactly as between processes; process-local state would not, and memvid-core keeps none on this path", "steps of the two actors interleave at API-call granularity", "the lock's retry loop (200 x 50 ms) runs on the virtual clock"], want_probes: &["second_open_refused", "flock_probes", "refused_after_commit", "refused_before_first_commit"] },
         CheckDef {
             id: "C23",
@@ -439,6 +439,17 @@ pub fn all() -> Vec<CheckDef> {
             assumptions: &["physical placement (offsets, stored sizes, payload_bytes) is excluded from the comparison: the batch options change the compression level on purpose", "the durability side of skip_sync (nothing owed before end_batch, everything after) is decided by C03's power-loss images over histories that contain batches"],
             want_probes: &["bulk_compares", "bulk_with_batch_mode", "bulk_several_skip_index_commits", "chunked_puts"],
         },
+        CheckDef {
+            id: "C29",
+            level: "fault_enumeration",
+            quick_s: 60,
+            thorough_s: 900,
+            gen: crate::capsule::gen_capsule,
+            run: crate::capsule::run_capsule,
+            rule: "a seeded history produces a committed, closed .mv2 file of 70 KiB .. 2.5 MiB (below, above one and above two capsule chunks of 1 MiB); it is locked and unlocked under the recorder (a third of the runs with injected short reads and short writes) and the result compared byte for byte; the unlock's own syscall log is cut at 24 sampled points (process crash) and the output path inspected; 8 (quick) / 30 (thorough) damaged copies of the capsule, addressed by structure (header fields, chunk length prefixes, ciphertext, tags; truncation at and around every chunk boundary; dropped, duplicated and moved chunks), are given to unlock with and without an older file at the output path; half of the runs unlock once more with one injected ENOSPC/EIO; a run is non-trivial iff the clean round trip was exact and >=1 damaged capsule or crash image was judged; distinct = (single/multi chunk, fault kinds) classes",
+            assumptions: &["Argon2id at the library's parameters (64 MiB, 3 passes) runs for every lock and unlock; nothing is stubbed", "faults sampled by seed; truncation at a chunk boundary is always among them when the capsule has more than one boundary"],
+            want_probes: &["capsule_round_trips_exact", "capsule_damaged_capsules", "capsule_damaged_rejected", "capsule_crash_images", "capsule_plain_over_1MiB"],
+        },
         hist("C42", gen_vacuum, &["vacuum", "deletes", "updates"]),
         medium("C20", &["medium_images", "medium_open_accepted", "medium_open_rejected", "fault_in_payload", "fault_in_toc", "fault_in_footer", "fault_in_wal", "fault_in_indexes"]),
         medium("C21", &["medium_images", "medium_doctor_ran"]),
@@ -488,6 +499,7 @@ pub fn quick_runs(id: &str) -> u64 {
         "C12" => 90,
         "C26" | "C27" => 160,
         "C40" => 120,
+        "C29" => 40,
         "C42" => 260,
         _ => 100,
     }
